@@ -1,3 +1,4 @@
 pub mod api;
 pub mod common;
+pub mod forms;
 pub use api::{Int, SInt, UInt, Val};
